@@ -110,10 +110,13 @@ struct Prog {
     uint8_t pre;  // bitmask of keys whose future main requests before the threads start
     bool destroy_early;  // destroy the container while consumers still wait
     std::vector<std::vector<Op>> threads;
+    int key1 = 1;  // the integer used for the second int key ("1"): far-apart keys exercise key hashing / masks
 };
+int g_key1 = 1;
 std::string text(const Prog& p)
 {
     std::string s = std::string("DelayedObjects<") + (p.str == 2 ? "Blob(throwing copy)" : p.str ? "string" : "int") + ">";
+    if (p.key1 != 1) s += " [int keys 0 and " + std::to_string(p.key1) + "]";
     if (p.pre) {
         s += " futures requested up front:";
         for (int k = 0; k < NK; k++)
@@ -180,7 +183,7 @@ int run_op(Box<X>* b, const Op& o)
     try {
         switch (o.k) {
             case GETFUT:
-                if (o.key < 2) b->fut[o.key] = d->getFuture((int)o.key);
+                if (o.key < 2) b->fut[o.key] = d->getFuture(o.key ? g_key1 : 0);
                 else b->fut[o.key] = d->getFuture(sx);
                 b->has[o.key] = true;
                 MC_CHECK(b->fut[o.key].valid(), "invalid-future", "getFuture returned an invalid future");
@@ -188,7 +191,7 @@ int run_op(Box<X>* b, const Op& o)
             case SET_COPY: {
                 const X v = Conv<X>::make(o.val);
                 g_blob_armed[self()] = true;
-                if (o.key < 2) d->setDelayedValue((int)o.key, v);
+                if (o.key < 2) d->setDelayedValue(o.key ? g_key1 : 0, v);
                 else d->setDelayedValue(sx, v);
                 g_blob_armed[self()] = false;
                 return 0;
@@ -196,18 +199,18 @@ int run_op(Box<X>* b, const Op& o)
             case SET_MOVE: {
                 X v = Conv<X>::make(o.val);
                 g_blob_armed[self()] = true;
-                if (o.key < 2) d->setDelayedValue((int)o.key, std::move(v));
+                if (o.key < 2) d->setDelayedValue(o.key ? g_key1 : 0, std::move(v));
                 else d->setDelayedValue(sx, std::move(v));
                 g_blob_armed[self()] = false;
                 return 0;
             }
             case FULFILL: d->fulfillAllPromises(Conv<X>::make(o.val)); return 0;
             case FINISH:
-                if (o.key < 2) d->finishedWithValue((int)o.key);
+                if (o.key < 2) d->finishedWithValue(o.key ? g_key1 : 0);
                 else d->finishedWithValue(sx);
                 return 0;
-            case ISREC: return o.key < 2 ? d->isRecognized((int)o.key) : d->isRecognized(sx);
-            case ISCOMP: return o.key < 2 ? d->isCompleted((int)o.key) : d->isCompleted(sx);
+            case ISREC: return o.key < 2 ? d->isRecognized(o.key ? g_key1 : 0) : d->isRecognized(sx);
+            case ISCOMP: return o.key < 2 ? d->isCompleted(o.key ? g_key1 : 0) : d->isCompleted(sx);
         }
     }
     catch (const std::future_error& e) {
@@ -227,6 +230,7 @@ template<class X>
 void body_t(const Prog& p)
 {
     g_nhist = 0;
+    g_key1 = p.key1;
     g_nfailed = 0;
     memset(g_blob_armed, 0, sizeof g_blob_armed);
     for (int k = 0; k < NK; k++) g_fut_val[k] = -1;
@@ -405,6 +409,15 @@ void make_items(const Options& o, std::vector<Item>& items)
                 for (int i : s) t.push_back(al[i]);
                 p.threads.push_back(t);
                 add(p, 0, 0);
+                // scale: the same history with the two int keys far apart (word-size multiples)
+                if (str == 0 && req[0] == 1 && req[1] == 1 && s.size() <= 4) {
+                    for (int k1 : {32, 64, 256, 65536}) {
+                        if (!thorough && k1 != 64 && k1 != 256) continue;
+                        p.key1 = k1;
+                        add(p, 0, 0);
+                    }
+                    p.key1 = 1;
+                }
             }
         }
     }
